@@ -61,7 +61,7 @@ func ValidateCreateVestingAccount(fromAddress string, toAddress string, amount s
 		return nil, nil, errors.Wrapf(ErrIdenticalAccountsAddresses, "create vesting account - identical from address (%s) and to address (%s)", fromAddress, toAddress)
 	}
 	if startTime > endTime {
-		return nil, nil, errors.Wrapf(ErrParam, "create vesting account - start time is after end time error (%s > %s)", time.Unix(startTime, 0).String(), time.Unix(endTime, 0).String())
+		return nil, nil, errors.Wrapf(ErrParam, "create vesting account - start time is after end time error (%s > %s)", time.Unix(startTime, 0).UTC().String(), time.Unix(endTime, 0).UTC().String())
 	}
 	fromAccAddress, err = sdk.AccAddressFromBech32(fromAddress)
 	if err != nil {
